@@ -1,7 +1,7 @@
 """C16 - Every built-in function is callable under its specification name and arity."""
 from lib import driver as D
 
-MUTANTS = ["arityOffByOne", "acceptUnknown"]
+MUTANTS = ["arityOffByOne", "acceptUnknown", "notImplementedYieldsValue", "probeMissing"]
 
 
 def run(ctx):
